@@ -120,7 +120,13 @@ func VerifC03Route(tmpl string, target int) {
 		err = Unmarshal(b, &got)
 	case 1:
 		err = Unmarshal(b, &got, jsontext.AllowDuplicateNames(true))
-		valid = zzspec.ValidText(b, true, false, 10000)
+		if !valid && zzspec.ValidText(b, true, false, 10000) {
+			// Text with duplicate names under AllowDuplicateNames: later members are MERGED into
+			// earlier ones, which legitimately fails for values of different kinds; its meaning is
+			// the subject of C14, not of this route comparison.
+			vrt.Cover("duplicates-allowed")
+			return
+		}
 	case 2:
 		var m map[string]any
 		err = Unmarshal(b, &m)
